@@ -198,6 +198,13 @@ def matrix_protos():
        subs=[('Wrap', [num('Kind', 'u8'), Field('match', 'Body', key='Kind', pairs=[([1], 'Logon'), ([2], 'Logout')]), num('Tail', 'u16')]),
              ('Logon', [dyn('User')]), ('Logout', [num('Code', 'u8')])])
     j += 1
+    mk(alpha_tag('Mm', j), [num('Pre', 'u8'), Field('inline', 'Wrapper', fields=[num('Kind', 'u8'), Field('match', 'Body', key='Kind', pairs=[([1], 'Logon'), ([2, 3], 'Logout')]), num('Tail', 'u16')]), num('Post', 'u16')],
+       subs=[('Logon', [dyn('User')]), ('Logout', [num('Code', 'u8')])])
+    j += 1
+    mk(alpha_tag('Mm', j), [num('Pre', 'u8'), Field('ref', 'Outer', packet='Outer', named=False), num('Post', 'u16')],
+       subs=[('Outer', [Field('inline', 'Holder', fields=[dyn('Kind'), Field('match', 'Body', key='Kind', pairs=[(['A'], 'Logon'), (['B'], 'Logout')])], repeat=True)]),
+             ('Logon', [dyn('User')]), ('Logout', [num('Code', 'u8')])], options={'LittleEndian': 'true'})
+    j += 1
     mk(alpha_tag('Mm', j), [num('KindA', 'u8'), num('KindB', 'u16'),
                       Field('match', 'BodyA', key='KindA', pairs=[([1], 'Logon'), ([2], 'Logout')]),
                       Field('match', 'BodyB', key='KindB', pairs=[([5], 'Logout'), ([6], 'Logon')])],
@@ -210,6 +217,7 @@ def matrix_protos():
                 for tk in ('match', 'ref'):
                     j += 1
                     lenf = Field('len', 'BodyLen', ntype=lt, target='Body', prefixed=prefixed, typed=True)
+                    lenf.alias = (j % 4 == 1)
                     if tk == 'match':
                         tgt = Field('match', 'Body', key='MsgType', pairs=[([1], 'Logon'), ([2], 'Beat'), ([3], 'Big')])
                     else:
@@ -229,7 +237,10 @@ def matrix_protos():
             for le in (None, 'true'):
                 j += 1
                 alg = {'u8': 'SUM8', 'u16': 'CRC16', 'u32': 'CRC32', 'u64': 'CRC64'}.get(ct, 'NONE') if j % 3 else 'NOPE'
+                if j % 4 == 2 and alg not in ('NONE', 'NOPE'):
+                    alg = {'SUM8': 'Xor8', 'CRC16': 'Add16', 'CRC32': 'Mix32', 'CRC64': 'Mix64'}[alg]      # registered mixed-case names (names are case-sensitive)
                 ck = Field('cksum', 'Check', ntype=ct, algo=alg, prefixed=prefixed, typed=True)
+                ck.alias = (j % 5 == 1)
                 mk(alpha_tag('Mc', j), [num('MsgType', 'u16'), dyn('Text'), ck], options={'LittleEndian': le} if le else None)
     j += 1
     mk(alpha_tag('Mc', j), [num('MsgType', 'u16'), Field('cksum', 'Check', ntype='u32', algo='CRC32', prefixed=True, typed=True), num('Post', 'u16')])
@@ -392,6 +403,34 @@ def random_proto(rng, tag, max_packets=6, depth=2, allow=None):
                     alg = 'NOPE'
                 fields.append(Field('cksum', nm.fresh('Ck'), ntype=ct, algo=alg, prefixed=rng.random() < 0.5, typed=True))
         packets.insert(0, Packet(names[i], fields, root=(i == 0)))
+    # every packet must be reachable from the root, otherwise its codec is emitted but never executed by the lanes
+    byname = {p.name: p for p in packets}
+    reach = set()
+
+    def visit(pk):
+        if pk.name in reach:
+            return
+        reach.add(pk.name)
+        stack = list(pk.fields)
+        while stack:
+            f = stack.pop()
+            if f.kind == 'ref':
+                visit(byname[f.packet])
+            elif f.kind == 'match':
+                for _, pn in f.pairs:
+                    visit(byname[pn])
+            elif f.kind == 'inline':
+                stack.extend(f.fields)
+    root = packets[0]
+    visit(root)
+    for pk in packets[1:]:
+        if pk.name not in reach:
+            ref = Field('ref', nm.fresh('Rf'), packet=pk.name, named=True, repeat=rng.random() < (0.3 if 'repeat' in allow else 0))
+            at = len(root.fields)
+            if root.fields and root.fields[-1].kind == 'cksum':
+                at -= 1
+            root.fields.insert(at, ref)
+            visit(pk)
     if rng.random() < 0.4 and len(packets) > 1:
         r = packets.pop(0)
         packets.insert(rng.randint(0, len(packets)), r)
